@@ -32,7 +32,7 @@ def ser(nodes, base=0, pos=None):
             s += n
             t += n
         else:
-            open_ = f"<{n[0]}>"
+            open_ = f"<{n[0]} class=\"c d\" id='k'>" if (n[0] in BLOCK and len(n[1]) % 2 == 0) else f"<{n[0]}>"
             a, b = ser(n[1], base + len(s) + len(open_), pos)
             s += open_ + a + f"</{n[0]}>"
             t += b
